@@ -312,6 +312,17 @@ def run(tier):
 
     # (a) library codes
     dom = c01_domain(tier)
+    # beyond the C01 domain (whose rank computations bound n): per class the
+    # largest lattices with side <= 6 (3-D) / 12 (2-D) - features that need room
+    # (a hole large enough to swallow a whole cell) only exist there
+    seen_ = {(a, tuple(b)) for a, b, _, _ in dom}
+    for name in codes.CLASSES:
+        big = codes.sizes(name, 12 if codes.dimension(name) == 2 else (6 if tier == 'quick' else 7),
+                          max_n=1600, min_n=150)
+        big = [s_ for s_ in big if (name, tuple(s_)) not in seen_]
+        cubic = [s_ for s_ in big if len(set(s_)) == 1]
+        for s_ in dict.fromkeys(big[-2:] + cubic[-1:] + (big[::max(1, len(big) // 6)] if tier != 'quick' else [])):
+            dom.append((name, tuple(s_), None, {}))
     recs = []
     meta = {}
     for name, size, dname, kw in dom:
